@@ -2,6 +2,7 @@ use crate::element::SvgElement;
 use crate::errors::{Result, SvgdxError};
 use crate::types::OrderIndex;
 
+use std::collections::HashMap;
 use std::io::{BufRead, BufReader, Cursor, Write};
 use std::str::FromStr;
 
@@ -265,9 +266,7 @@ fn internal_entities(doctype: &[u8]) -> Vec<(Vec<u8>, Vec<u8>)> {
                 Some(quote @ (b'"' | b'\'')) if name != b"%" => {
                     let value = &doctype[value_at + 1..];
                     let len = value.iter().position(|c| c == quote).unwrap_or(value.len());
-                    if !entities.iter().any(|(known, _)| known == name) {
-                        entities.push((name.to_vec(), value[..len].to_vec()));
-                    }
+                    entities.push((name.to_vec(), value[..len].to_vec()));
                     pos = value_at + 1 + len + 1;
                 }
                 // (a parameter entity, or one which is held elsewhere)
@@ -289,70 +288,86 @@ fn internal_entities(doctype: &[u8]) -> Vec<(Vec<u8>, Vec<u8>)> {
 /// `data` with the references to `entities` replaced (`None` if it holds none of them).
 /// References in comments, processing instructions and CDATA sections are text.
 fn expand_entities(data: &[u8], entities: &[(Vec<u8>, Vec<u8>)]) -> Result<Option<Vec<u8>>> {
-    fn expand(
-        data: &[u8],
-        entities: &[(Vec<u8>, Vec<u8>)],
-        depth: usize,
-        limit: usize,
-        out: &mut Vec<u8>,
-    ) -> Result<bool> {
-        let mut replaced = false;
-        let mut pos = 0;
-        while pos < data.len() {
-            let rest = &data[pos..];
-            let skip_to = |open: &[u8], close: &[u8]| {
-                rest.starts_with(open).then(|| {
-                    rest.windows(close.len())
-                        .position(|w| w == close)
-                        .map(|p| p + close.len())
-                        .unwrap_or(rest.len())
-                })
-            };
-            if let Some(len) = skip_to(b"<!--", b"-->")
-                .or_else(|| skip_to(b"<![CDATA[", b"]]>"))
-                .or_else(|| skip_to(b"<?", b"?>"))
-            {
-                out.extend_from_slice(&rest[..len]);
-                pos += len;
-                continue;
-            }
-            let reference = (rest[0] == b'&')
-                .then(|| rest.iter().take(256).position(|c| *c == b';'))
-                .flatten()
-                .and_then(|end| {
-                    entities
-                        .iter()
-                        .find(|(name, _)| name.as_slice() == &rest[1..end])
-                        .map(|(_, value)| (end + 1, value))
-                });
-            match reference {
-                Some((len, value)) => {
-                    // (an entity which - through others or not - refers to itself is an error)
-                    if depth >= 16 || out.len() + value.len() > limit {
-                        return Err(SvgdxError::ParseError(
-                            "Entity references expand too far".to_owned(),
-                        ));
-                    }
-                    expand(value, entities, depth + 1, limit, out)?;
-                    replaced = true;
+    struct Expansion<'a> {
+        entities: HashMap<&'a [u8], &'a [u8]>,
+        out: Vec<u8>,
+        /// (replacement can multiply the size of a document, and - with empty
+        /// replacement text - the work without the size: both are bounded)
+        size_limit: usize,
+        steps_left: usize,
+        replaced: bool,
+    }
+    impl Expansion<'_> {
+        fn expand(&mut self, data: &[u8], depth: usize) -> Result<()> {
+            let mut pos = 0;
+            while pos < data.len() {
+                let rest = &data[pos..];
+                let skip_to = |open: &[u8], close: &[u8]| {
+                    rest.starts_with(open).then(|| {
+                        rest.windows(close.len())
+                            .position(|w| w == close)
+                            .map(|p| p + close.len())
+                            .unwrap_or(rest.len())
+                    })
+                };
+                if let Some(len) = skip_to(b"<!--", b"-->")
+                    .or_else(|| skip_to(b"<![CDATA[", b"]]>"))
+                    .or_else(|| skip_to(b"<?", b"?>"))
+                {
+                    self.out.extend_from_slice(&rest[..len]);
                     pos += len;
+                    continue;
                 }
-                None => {
-                    out.push(rest[0]);
-                    pos += 1;
+                let reference = (rest[0] == b'&')
+                    .then(|| rest.iter().take(256).position(|c| *c == b';'))
+                    .flatten()
+                    .and_then(|end| {
+                        self.entities
+                            .get(&rest[1..end])
+                            .map(|value| (end + 1, *value))
+                    });
+                match reference {
+                    Some((len, value)) => {
+                        // (an entity which - through others or not - refers to itself is an error)
+                        if depth >= 16
+                            || self.steps_left == 0
+                            || self.out.len() + value.len() > self.size_limit
+                        {
+                            return Err(SvgdxError::ParseError(
+                                "Entity references expand too far".to_owned(),
+                            ));
+                        }
+                        self.steps_left -= 1;
+                        self.expand(value, depth + 1)?;
+                        self.replaced = true;
+                        pos += len;
+                    }
+                    None => {
+                        self.out.push(rest[0]);
+                        pos += 1;
+                    }
                 }
             }
+            Ok(())
         }
-        Ok(replaced)
     }
     if entities.is_empty() {
         return Ok(None);
     }
-    let mut out = Vec::with_capacity(data.len());
-    // (replacement can multiply the size of a document: bounded, as a variable's length is)
-    let limit = data.len() * 4 + (1 << 20);
-    let replaced = expand(data, entities, 0, limit, &mut out)?;
-    Ok(replaced.then_some(out))
+    let mut expansion = Expansion {
+        // (the first declaration of a name is the one which binds)
+        entities: entities
+            .iter()
+            .rev()
+            .map(|(name, value)| (name.as_slice(), value.as_slice()))
+            .collect(),
+        out: Vec::with_capacity(data.len()),
+        size_limit: data.len() * 4 + (1 << 20),
+        steps_left: data.len() + 100_000,
+        replaced: false,
+    };
+    expansion.expand(data, 0)?;
+    Ok(expansion.replaced.then_some(expansion.out))
 }
 
 impl InputList {
@@ -478,7 +493,9 @@ impl InputList {
                         if let Some((_, rest)) = t_str.rsplit_once('\n') {
                             t_str = rest.to_string();
                         }
-                        indent = t_str.len() - t_str.trim_end_matches(' ').len();
+                        // (the indentation is repeated for every line an element of this
+                        // line generates: layout, which need not follow the source to any width)
+                        indent = (t_str.len() - t_str.trim_end_matches(' ').len()).min(200);
 
                         events.push(InputEvent {
                             event: ev.expect("match").into_owned(),
